@@ -465,6 +465,8 @@ def rule_floor(ctx, rep):
               ["%s: %s" % (k, sorted(v)) for k, v in floors.items()])
 
 
+META["explanation"] += " " + 'Also (rounds 10-11): size -> order conversion (fls(x - 1), bsr + 1, zero case), every writer of nr_cpus_mask stores a power of two minus one (partition tiling), work-queue creation initialises the queue before the worker.'
+
 RULES = [
     ("C09.pow2", rule_pow2),
     ("C09.size", rule_size),
